@@ -432,6 +432,93 @@ def run(report, p):
                 r5.check(open_mode(p, c, r) == "rb", r, c, "the XML file is not opened in binary mode for parsing (the declared encoding must decide)")
 
     include_rules(report, p, 'c16', ['R16.5'], 'a hash date read from a manifest must keep its offset until it is written again')
+    # ------------------------------------------------------------------ R10.6
+    r6 = report.rule(
+        "R10.6",
+        "what the reader fills reaches the hash list: on the closing tag of each container (creatorinfo, processinfo, hash / directoryhash, roothash, hashlistreference) the "
+        "object is attached to the hash list under the parser-state tests of that tag only; an <author> start opens exactly one author; a conversion of an optional "
+        "attribute is applied when the attribute is present",
+        7,
+    )
+    from .common import atomic_deps
+
+    grd = cfg_of(rd)
+
+    def atoms_of(node):
+        out = set()
+        for t, l in grd.control_deps(grd.node_for(node), through_loops=False):
+            if t.kind == "test":
+                out |= set(atomic_deps(t.ast, l))
+        return out
+
+    def state_only(test_text):
+        t = test_text.replace('"', "'")
+        return t.startswith(("tag == ", "tag in ", "event == ", "type(current_object) is ")) or t in ("current_object", "current_object is None") or (t.startswith("tag == ") and " or tag == " in t)
+
+    def attach(desc, pick, want_tags, want_cls):
+        sites = [n for n in walk_no_nested(rd.node) if pick(n)]
+        if not sites:
+            r6.instance(rd, rd.node, desc)
+            r6.check(False, rd, rd.node, f"the reader never attaches {desc}: what it parsed is lost", construct=f"attach missing: {desc}")
+            return
+        for n in sites:
+            r6.instance(rd, n, f"{desc}: {norm(n)[:70]}")
+            at = atoms_of(n)
+            texts = {a for a, l in at if l == "T"}
+            tag_ok = any(all(f"tag == '{w}'" in a for w in want_tags) for a in texts) if len(want_tags) > 1 else (f"tag == '{want_tags[0]}'" in texts)
+            cls_ok = want_cls is None or f"type(current_object) is {want_cls}" in texts
+            extra = sorted(a for a in at if not state_only(a[0]))
+            r6.check(tag_ok and cls_ok and ("event == 'end'", "T") in at, rd, n, f"{desc} happens under {sorted(at)} and not at the closing <{'/'.join(want_tags)}> of a {want_cls}: the parsed container is lost or attached at the wrong time", construct=f"attach condition: {desc}")
+            r6.check(not extra, rd, n, f"{desc} additionally depends on {extra}", construct=f"attach extra condition: {desc}")
+
+    def is_store(attr, base_has):
+        return lambda n: isinstance(n, ast.Assign) and len(n.targets) == 1 and isinstance(n.targets[0], ast.Attribute) and n.targets[0].attr == attr and base_has in norm(n.targets[0].value) and isinstance(n.value, ast.Name)
+
+    def is_call(meth):
+        return lambda n: isinstance(n, ast.Expr) and isinstance(n.value, ast.Call) and isinstance(n.value.func, ast.Attribute) and n.value.func.attr == meth and "hash_list" in norm(n.value.func.value) and n.value.args and isinstance(n.value.args[0], ast.Name)
+
+    attach("creator info -> hash_list.creator_info", is_store("creator_info", "hash_list"), ["creatorinfo"], "MHLCreatorInfo")
+    attach("process info -> hash_list.process_info", is_store("process_info", "hash_list"), ["processinfo"], "MHLProcessInfo")
+    attach("root hash -> process_info.root_media_hash", lambda n: isinstance(n, ast.Assign) and len(n.targets) == 1 and isinstance(n.targets[0], ast.Attribute) and n.targets[0].attr == "root_media_hash" and isinstance(n.value, ast.Name), ["roothash"], "MHLMediaHash")
+    attach("reference -> hash_list.append_hash_list_reference", is_call("append_hash_list_reference"), ["hashlistreference"], "MHLHashListReference")
+    # records: hash_list.append_hash(current_object) at </hash> or </directoryhash>
+    recs = [n for n in walk_no_nested(rd.node) if is_call("append_hash")(n) and norm(n.value.args[0]) == "current_object"]
+    r6.instance(rd, recs[0] if recs else rd.node, "record -> hash_list.append_hash")
+    okr = len(recs) >= 1
+    for n in recs:
+        at = atoms_of(n)
+        texts = {a for a, l in at if l == "T"}
+        okr = okr and (("tag == 'hash'" in texts and "tag == 'directoryhash'" in texts) or any("tag == 'hash'" in a and "tag == 'directoryhash'" in a for a in texts)) and ("event == 'end'", "T") in at and not [a for a in at if not state_only(a[0])]
+    r6.check(okr, rd, recs[0] if recs else rd.node, "file / directory records are not appended to the hash list at their closing tag under parser-state tests only", construct="attach condition: records")
+    # nested containers: every push of the enclosing object at <X> has its pop at </X>
+    pushes = [n for n in walk_no_nested(rd.node) if isinstance(n, ast.Expr) and isinstance(n.value, ast.Call) and isinstance(n.value.func, ast.Attribute) and n.value.func.attr == "append" and "stack" in norm(n.value.func.value)]
+    pops = [n for n in walk_no_nested(rd.node) if isinstance(n, ast.Assign) and isinstance(n.value, ast.Call) and isinstance(n.value.func, ast.Attribute) and n.value.func.attr == "pop" and "stack" in norm(n.value.func.value)]
+    for pu in pushes:
+        at = atoms_of(pu)
+        tags = sorted(a.split("'")[1] for a, l in at if l == "T" and a.startswith("tag == '"))
+        r6.instance(rd, pu, f"push at <{'/'.join(tags)}>")
+        okp = len(tags) == 1 and ("event == 'start'", "T") in at
+        match = [po for po in pops if (f"tag == '{tags[0]}'", "T") in atoms_of(po) and ("event == 'end'", "T") in atoms_of(po)] if okp else []
+        r6.check(okp and len(match) == 1 and norm(match[0].targets[0]) == "current_object", rd, pu, f"the object pushed at <{'/'.join(tags)}> is not popped back at </{'/'.join(tags)}>: the enclosing container (process info) is lost", construct=f"push without matching pop: {'/'.join(tags)}")
+    # <author> start
+    auth = [n for n in walk_no_nested(rd.node) if isinstance(n, ast.Expr) and isinstance(n.value, ast.Call) and isinstance(n.value.func, ast.Attribute) and n.value.func.attr == "append" and norm(n.value.func.value).endswith(".authors")]
+    for n in auth:
+        r6.instance(rd, n, norm(n)[:70])
+        at = atoms_of(n)
+        r6.check(("tag == 'author'", "T") in at and ("event == 'start'", "T") in at and not [a for a in at if not state_only(a[0])], rd, n, f"an author object is opened under {sorted(at)} instead of 'start of an <author> element'", construct="author opened under wrong condition")
+    # conversions of optional attributes
+    for n in walk_no_nested(rd.node):
+        if isinstance(n, ast.Assign) and len(n.targets) == 1 and isinstance(n.targets[0], ast.Name) and isinstance(n.value, ast.Call) and n.value.args and isinstance(n.value.args[0], ast.Name):
+            src = n.value.args[0].id
+            srcdef = [x for x in walk_no_nested(rd.node) if isinstance(x, ast.Assign) and len(x.targets) == 1 and isinstance(x.targets[0], ast.Name) and x.targets[0].id == src and "element.attrib" in norm(x.value)]
+            if not srcdef:
+                continue
+            r6.instance(rd, n, norm(n)[:70])
+            at = atoms_of(n)
+            mention = [(a, l) for a, l in at if a.split(" ")[0] == src]
+            good = all((a == f"{src} is None" and l == "F") or (a == src and l == "T") for a, l in mention) and bool(mention)
+            r6.check(good, rd, n, f"`{norm(n)[:60]}` is applied under {sorted(mention)}: the conversion must run when the attribute is present", construct=f"optional attribute conversion guard: {src}")
+
     report.not_decided += ["value equality for arbitrary Unicode at run time", "lxml's escaping and parsing (trusted)", "modification dates (written, deliberately not parsed back)"]
 
 
